@@ -332,3 +332,47 @@ class Check:
             sys.exit(1)
         print("%s: ok (%s tier, %.0fs)" % (self.pid, self.tier, time.time() - self.t0))
         sys.exit(0)
+
+
+# ---------------------------------------------------------------------------------- tablebases
+
+def ensure_tb():
+    """K+R v K and K+Q v K tables: proposed by the untrusted solver, accepted only after TLC has
+    checked every entry against Chess.tla (spec/TbCheck.tla). Cached under work/tb with a stamp
+    over the specification, the checker, the solver and the tables."""
+    import hashlib
+    d = os.path.join(WORK, "tb")
+    os.makedirs(d, exist_ok=True)
+    with _Lock(".tb.lock"):
+        files = {"R": os.path.join(d, "krk.json"), "Q": os.path.join(d, "kqk.json")}
+
+        def stamp():
+            h = hashlib.sha256()
+            for p in [os.path.join(SPEC, "Chess.tla"), os.path.join(SPEC, "TbCheck.tla"), os.path.join(ROOT, "tools", "solve_tb.py")] + list(files.values()):
+                h.update(open(p, "rb").read())
+            return h.hexdigest()
+        sp = os.path.join(d, "verified.stamp")
+        if all(os.path.exists(f) for f in files.values()) and os.path.exists(sp) and open(sp).read().strip() == stamp():
+            return files
+        t = time.time()
+        for pc, f in files.items():
+            r = run([sys.executable, os.path.join(ROOT, "tools", "solve_tb.py"), pc, f])
+            if r.returncode != 0:
+                tool_error("tablebase solver failed: " + r.stderr[-500:])
+        jobs = []
+        for pc, f in files.items():
+            for i in range(16):
+                jobs.append(dict(module="TbCheck", env={"PIECE": pc, "TBFILE": f, "WK0": i * 4, "WKN": 4}, xmx="3g", timeout=3000, keep_stdout=True))
+        res = tlc_many(jobs, parallel=16)
+        states = 0
+        for r in res:
+            if r["rc"] != 0 or r["error"]:
+                sys.stderr.write(r.get("stdout", "")[-3000:])
+                tool_error("tablebase rejected by TbCheck.tla: %s" % r["error"])
+            states += r["distinct"]
+        with open(sp, "w") as fo:
+            fo.write(stamp())
+        with open(os.path.join(d, "verified.json"), "w") as fo:
+            json.dump({"index_slots_checked": states, "wall_s": round(time.time() - t, 1)}, fo)
+        log("tablebases solved and checked by TLC: %d index slots, %.0fs" % (states, time.time() - t))
+        return files
